@@ -141,6 +141,14 @@ MUTANTS = [
          "        current, other = queue.pop()\n\n        while other:\n            first, other = other[0], other[1:]\n            result = current | first", ['bitsets.combos.shortlex'], 'breaks'),
     (BC, "    if not excludestart:\n        yield start", "    if excludestart:\n        yield start", ['bitsets.combos.shortlex'], 'breaks'),
     (BC, "            if other:\n                queue.append((result, other))\n\n\ndef reverse", "            if other:\n                queue.append((current, other))\n\n\ndef reverse", ['bitsets.combos.shortlex'], 'breaks'),
+    # the order of combos.shortlex among sets of equal size (yield/shortlex-order, invariants O1-O3, lemma.powerset.order)
+    (BC, "            first, other = other[0], other[1:]", "            first, other = other[-1], other[:-1]", ['bitsets.combos.shortlex'], 'breaks'),
+    (BC, "            if other:\n                queue.append((result, other))\n\n\ndef reverse", "            if other:\n                queue.appendleft((result, other))\n\n\ndef reverse",
+         ['bitsets.combos.shortlex'], 'breaks'),
+    (BC, "            yield result\n\n            if other:\n                queue.append((result, other))\n\n\ndef reverse",
+         "            if other:\n                queue.append((result, other))\n\n            yield result\n\n\ndef reverse", ['bitsets.combos.shortlex'], 'equivalent'),
+    (BB, "        return map(self.frombitset, combos.shortlex(start, list(other)))", "        return map(self.frombitset, combos.shortlex(start, list(other)[::-1]))",
+         ['bitsets.MemberBits.powerset'], 'breaks'),
     (BB, "        return map(self.frombitset, combos.shortlex(start, list(other)))", "        return map(self.frombitset, combos.shortlex(self, list(other)))", ['bitsets.MemberBits.powerset'], 'breaks'),
     # completeness / exactly-once of FCbO (units fcbo.*.complete)
     (FC, 'stack.append((concept, j + 1, next_property_sets))', 'stack.append((concept, j + 2, next_property_sets))', ['fcbo.fast_generate_from.complete'], 'breaks'),
